@@ -167,6 +167,29 @@ def check_lookups(M, net, rec, prop="C08", subset=None, op=None):
                               {"got": len(got), "expected": len(exp), "op": repr(op)[:200]})
         except Exception as e:
             rec.violation(f"{prop}:iterating net.links raised {type(e).__name__}", {"exception": repr(e)[:300]})
+    if hasattr(net, "downstream") and hasattr(net, "ramps"):
+        # a user-defined Network subclass with lookups of its own (vf/userkinds.Motorway), kept fresh with the library's decorator
+        G_ = X.raw_graph(net)
+        rec.count("lookup_reads")
+        for n in list(G_._node):
+            exp_ = frozenset(id(w_) for w_ in G_._succ[n])
+            try:
+                got_ = net.downstream(n)
+            except Exception as e:
+                rec.violation(f"{prop}:a subclass lookup kept fresh with invalidate_cache raised {type(e).__name__} after {_opkind(op)}", {"exception": repr(e)[:300]})
+                break
+            if got_ != exp_ and _once(net, ("lookup", "downstream")):
+                rec.violation(f"{prop}:a memoised lookup method of a Network subclass, listed in the library's invalidate_cache decorator, disagrees with the graph after {_opkind(op)}",
+                              {"op": repr(op)[:200], "got": len(got_), "expected": len(exp_)})
+                break
+        exp_r = [id(d_[X.ORIGIN]) for d_ in G_._node.values() if X.ORIGIN in d_ and isinstance(d_[X.ORIGIN], M.MeteredOnRamp)]
+        try:
+            got_r = [id(o_) for o_ in net.ramps]
+            if set(got_r) != set(exp_r) and _once(net, ("lookup", "ramps")):  # (one object may be attached at several nodes)
+                rec.violation(f"{prop}:a cached lookup of a Network subclass, listed in the library's invalidate_cache decorator, disagrees with the graph after {_opkind(op)}",
+                              {"op": repr(op)[:200]})
+        except Exception as e:
+            rec.violation(f"{prop}:a subclass lookup kept fresh with invalidate_cache raised {type(e).__name__} after {_opkind(op)}", {"exception": repr(e)[:300]})
     if subset is None or "per_node" in subset:
         for n in list(X.raw_graph(net).nodes):
             for which, attr in (("in", "in_links"), ("out", "out_links")):
